@@ -313,6 +313,9 @@ def _stable_ev(ctx):
             return guarded(ctx.cfg(finfo), node, lambda e: status_test(e, 'stopped'), True)
         return False
     ev = astq.ev_pred('stable-status', pred)
+    # a path taken only because the status already is 'stopped' needs no write
+    from sa.idioms import edges_requiring
+    ev.vacuous = lambda cfg: edges_requiring(cfg, lambda e: status_test(e, 'stopped'), True)
     _STABLE[id(ctx)] = ev
     return ev
 
